@@ -202,7 +202,7 @@ func c19R2(c *Ctx) {
 		}
 		walk(fn)
 	}
-	c.R.Floor("C19.R2", n, 12)
+	c.R.Floor("C19.R2", n, 6)
 }
 
 func isNamed(t types.Type, n *types.Named) bool {
@@ -467,7 +467,7 @@ func c19R5(c *Ctx) {
 		}
 		walk(fn)
 	}
-	c.R.Floor("C19.R5", n, 55)
+	c.R.Floor("C19.R5", n, 30)
 }
 
 func isIfaceSlice(t types.Type) bool {
